@@ -3,95 +3,36 @@ package main
 import (
 	"fmt"
 	"os"
-	"sort"
-	"syscall"
-	"time"
+	"runtime"
 
+	"github.com/arnodel/golua/lib"
 	rt "github.com/arnodel/golua/runtime"
-
-	"verif/internal/gl"
 )
 
 func main() {
-	t0 := time.Now()
-	for i := 0; i < 2000; i++ {
-		s := gl.NewSess(gl.Options{})
-		s.Close()
+	os.WriteFile("/verif/work/c08probe-victim.txt", []byte("x"), 0o644)
+	r := rt.New(os.Stdout)
+	cleanup := lib.LoadAll(r)
+	src := `
+	print(runtime.callcontext({flags="iosafe"}, function()
+		setmetatable({}, {__gc = function() print("gc runs; flags now:", runtime.context().flags, os.remove("/verif/work/c08probe-victim.txt")) end})
+		local co = coroutine.create(function() print("co body, flags:", runtime.context().flags, pcall(os.remove, "/verif/work/c08probe-victim.txt")) end)
+		CO = co
+	end))
+	print("after ctx"); coroutine.resume(CO)
+	collectgarbage() collectgarbage()
+	`
+	clos, err := r.CompileAndLoadLuaChunk("x", []byte(src), rt.TableValue(r.GlobalEnv()))
+	if err != nil {
+		fmt.Println(err)
+		return
 	}
-	fmt.Println("sess", time.Since(t0)/2000)
-	s := gl.NewSess(gl.Options{})
-	seen := map[interface{}]bool{}
-	fns := map[*rt.GoFunction]string{}
-	type item struct {
-		v    rt.Value
-		path string
-	}
-	q := []item{{rt.TableValue(s.R.GlobalEnv()), "_G"}, {rt.TableValue(s.R.RawMetatable(rt.StringValue(""))), "<stringmeta>"}}
-	for len(q) > 0 {
-		it := q[0]
-		q = q[1:]
-		switch it.v.Type() {
-		case rt.TableType:
-			t := it.v.AsTable()
-			if seen[t] {
-				continue
-			}
-			seen[t] = true
-			if m := t.Metatable(); m != nil {
-				q = append(q, item{rt.TableValue(m), it.path + "<mt>"})
-			}
-			var k, v rt.Value
-			var ok bool
-			type kv struct{ k, v rt.Value }
-			var kvs []kv
-			for {
-				k, v, ok = t.Next(k)
-				if !ok || k.IsNil() {
-					break
-				}
-				kvs = append(kvs, kv{k, v})
-			}
-			sort.Slice(kvs, func(i, j int) bool {
-				a, _ := kvs[i].k.ToString()
-				b, _ := kvs[j].k.ToString()
-				return a < b
-			})
-			for _, e := range kvs {
-				ks, _ := e.k.ToString()
-				q = append(q, item{e.v, it.path + "." + ks})
-			}
-		case rt.UserDataType:
-			u := it.v.AsUserData()
-			if seen[u] {
-				continue
-			}
-			seen[u] = true
-			if m := u.Metatable(); m != nil {
-				q = append(q, item{rt.TableValue(m), it.path + "<mt>"})
-			}
-		case rt.FunctionType:
-			c, _ := it.v.TryCallable()
-			if g, ok := c.(*rt.GoFunction); ok {
-				if _, dup := fns[g]; !dup {
-					fns[g] = it.path
-				}
-			}
-		}
-	}
-	var names []string
-	for _, n := range fns {
-		names = append(names, n)
-	}
-	sort.Strings(names)
-	fmt.Println(len(names))
-	for _, n := range names {
-		fmt.Println(n)
-	}
-	syscall.Access("/VERIF-BEGIN-1", 0)
-	f, err := os.Open("/etc/hostname")
-	fmt.Println(f, err)
-	_, err = syscall.Wait4(-1, nil, syscall.WNOHANG, nil)
-	fmt.Println("wait4", err)
-	time.Now().Local().Zone()
-	syscall.Access("/VERIF-END-1", 0)
+	term := rt.NewTerminationWith(nil, 0, true)
+	fmt.Println(rt.Call(r.MainThread(), rt.FunctionValue(clos), nil, term))
+	runtime.GC()
+	cleanup()
+	r.Close(nil)
+	_, e := os.Stat("/verif/work/c08probe-victim.txt")
+	fmt.Println("victim exists:", e == nil)
+	os.Remove("/verif/work/c08probe-victim.txt")
 }
